@@ -531,6 +531,27 @@ structure Sink where
 
 abbrev Leaf := Chip × Option Nat × Nat
 
+/-- what `route()` knows about a sink vertex before it decides how to attach it: a RouteEndpointConstraint
+(`endpoint`), and the slice `[a, b)` stored under the core resource in `allocations[vertex]` (`cores`; `none`
+when the vertex is missing from `allocations` or its entry has no core resource) -/
+structure SinkSpec where
+  v : Nat
+  chip : Chip
+  endpoint : Option Nat
+  cores : Option (Nat × Nat)
+  deriving Repr
+
+/-- the nested `if sink in route_to_endpoint: ... else: cores = ...; if cores is not None: ... else: ...` of
+`route()`: the endpoint constraint takes precedence over the allocated cores; an empty core slice without a
+constraint gives no leaf at all -/
+def SinkSpec.resolve (s : SinkSpec) : Sink :=
+  match s.endpoint with
+  | some r => { v := s.v, chip := s.chip, kind := 2, a := r, b := 0 }
+  | none =>
+    match s.cores with
+    | some (a, b) => { v := s.v, chip := s.chip, kind := 1, a := a, b := b }
+    | none => { v := s.v, chip := s.chip, kind := 0, a := 0, b := 0 }
+
 def Sink.routes (s : Sink) : List (Option Nat) :=
   if s.kind == 2 then [some s.a]
   else if s.kind == 1 then (List.range (s.b - s.a)).map fun i => some (coreRouteBase + (s.a + i))
@@ -801,7 +822,12 @@ def sinkOfJson (j : Json) : R Sink := do
   match ← asArr j with
   | [v, x, y, k, a, b] =>
     pure { v := ← asNat v, chip := (← asInt x, ← asInt y), kind := ← asNat k, a := ← asNat a, b := ← asNat b }
-  | _ => .error "expected [v,x,y,kind,a,b]"
+  | [v, x, y, ep, cores] =>
+    -- unresolved form: endpoint constraint (or null) and core slice (or null); the model decides
+    let cs ← asOpt cores fun c => asPair c asNat asNat
+    pure (SinkSpec.resolve { v := ← asNat v, chip := (← asInt x, ← asInt y), endpoint := ← asOpt ep asNat,
+                             cores := cs })
+  | _ => .error "expected [v,x,y,kind,a,b] or [v,x,y,endpoint,cores]"
 
 def pathOfJson (j : Json) : R (List (Nat × Chip)) := do
   (← asArr j).mapM fun e => do
